@@ -6,4 +6,6 @@ Definition swap : bool := false.
 Definition gen_facts : facts := mkFacts flags kind swap.
 Definition hash_text_exact : bool := true.
 Definition hash_name_chars : nat := 9.
+Definition dedup_filter_fresh : bool := true.
+Definition dedup_filter_appended : bool := true.
 
